@@ -422,6 +422,10 @@ func (a *appGenerator) makeCodegenApp() (GenApp, error) {
 				(a.GenOpts.IncludeCLi && bldr.APIPackageAlias == a.GenOpts.CliPackage) ||
 				(aliasUsed && pth != importPath) { // was already imported with a different target
 				op.PackageAlias = renameOperationPackage(tags, bldr.APIPackageAlias)
+				// the new alias may be taken as well (tags api, apiops and apiopsops)
+				for taken, used := defaultImports[op.PackageAlias]; used && taken != importPath; taken, used = defaultImports[op.PackageAlias] {
+					op.PackageAlias = renameOperationPackage(tags, op.PackageAlias)
+				}
 				bldr.APIPackageAlias = op.PackageAlias
 			}
 			defaultImports[bldr.APIPackageAlias] = importPath
